@@ -8,6 +8,7 @@ import (
 	"fmt"
 	"net"
 	"net/http"
+	"regexp"
 	"strconv"
 	"strings"
 	"sync"
@@ -24,7 +25,7 @@ import (
 
 func TestMain(m *testing.M) { stats.Main(m) }
 
-const ruleC05 = "rapid-generated end-to-end runs inside one testing/synctest bubble: a real http.Server{Handler: sse.Server{Provider: Joe{Replayer}}} and a real sse.Client over http.Transport, connected through net.Pipe wrapped in a cutting conn. Replayer in {Finite, Valid} x {automatic, manual IDs} large enough for everything published; 3..12 messages (multi-line data with CR/LF/CRLF, colons, leading spaces, field look-alikes; optional type, comments, Retry; header-safe manual IDs); after 'connect, publish m0, wait' a script of 5..40 actions: publish next | arm a cut after n more response bytes (n drawn up to the size of what will be written, so cuts land in the status line, headers, chunk framing, inside and between events) | cut now | end the handler from the server side once the session has sent something | virtual sleep | wait for quiescence. Oracle: after the script, with no more cuts and a virtual sleep beyond the maximum backoff, the callback log equals exactly (ID, type, data) of m0, m1, ... in order; every reconnect carried Last-Event-Id == ID of the last event delivered before it; Joe did not panic; Connect returns the context's error on cancel and the bubble ends with no goroutine left. Non-trivial: at least one abrupt cut strictly inside an event's bytes and at least one message published while no session was subscribed. Distinct: FNV-64 of the JSON of the case."
+const ruleC05 = "rapid-generated end-to-end runs inside one testing/synctest bubble: a real http.Server{Handler: sse.Server{Provider: Joe{Replayer}}} and a real sse.Client over http.Transport, connected through net.Pipe wrapped in a cutting conn. Replayer in {Finite, Valid} x {automatic, manual IDs} large enough for everything published; 3..12 messages (multi-line data with CR/LF/CRLF, colons, leading spaces, field look-alikes; optional type, comments, Retry; 7% carry a further data line of 1000..20000 bytes; header-safe manual IDs); after 'connect, publish m0, wait' a script of 5..40 actions: publish next | arm a cut after n more response bytes (n drawn up to the size of what will be written, so cuts land in the status line, headers, chunk framing, inside and between events) | cut now | end the handler from the server side once the session has sent something | virtual sleep | wait for quiescence. Oracle: after the script, with no more cuts and a virtual sleep beyond the maximum backoff, the callback log equals exactly (ID, type, data) of m0, m1, ... in order; every reconnect carried Last-Event-Id == ID of the last event delivered before it; Joe did not panic; Connect returns the context's error on cancel and the bubble ends with no goroutine left. Non-trivial: at least one abrupt cut strictly inside an event's bytes and at least one message published while no session was subscribed. Distinct: FNV-64 of the JSON of the case."
 
 // ---- case ---------------------------------------------------------------------------------
 
@@ -33,6 +34,7 @@ type MsgSpec struct {
 	Type  string    `json:"type,omitempty"`
 	Cmt   string    `json:"cmt,omitempty"`
 	Retry int       `json:"retryms,omitempty"`
+	Long  int       `json:"long,omitempty"` // a further data line of this many bytes
 }
 
 type Step struct {
@@ -76,6 +78,9 @@ func gen(t *rapid.T) Case {
 		if stats.Pct(t, "hasretry") < 12 {
 			m.Retry = 1 + stats.Pick(t, 4, "retry")
 		}
+		if stats.Pct(t, "haslong") >= 93 {
+			m.Long = stats.From(t, []int{1000, 4090, 4096, 5000, 9000, 20000}, "long")
+		}
 		c.Msgs = append(c.Msgs, m)
 		c.IDs = append(c.IDs, fmt.Sprintf("%s%d", stats.From(t, idPool, "id"), i))
 	}
@@ -89,7 +94,9 @@ func gen(t *rapid.T) Case {
 			s.Kind = "pub"
 		case k < 55:
 			s.Kind = "arm"
-			switch stats.Pick(t, 3, "armkind") {
+			switch stats.Pick(t, 4, "armkind") {
+			case 3:
+				s.N = stats.Pick(t, 25000, "huge")
 			case 0:
 				s.N = stats.Pick(t, 12, "small")
 			case 1:
@@ -113,6 +120,9 @@ func gen(t *rapid.T) Case {
 	c.RemoteCloses = rapid.Bool().Draw(t, "remotecloses")
 	return c
 }
+
+// yRuns matches the filler of long data lines in failure messages.
+var yRuns = regexp.MustCompile(`y{17,}`)
 
 // ---- plumbing -----------------------------------------------------------------------------
 
@@ -326,6 +336,11 @@ func check(t *testing.T, c Case) (v *stats.Verdict) {
 				m.AppendData(string(d))
 				mod.Chunks = append(mod.Chunks, oracle.Chunk{Text: string(d)})
 			}
+			if ms.Long > 0 {
+				d := strings.Repeat("y", ms.Long)
+				m.AppendData(d)
+				mod.Chunks = append(mod.Chunks, oracle.Chunk{Text: d})
+			}
 			if ms.Cmt != "" {
 				m.AppendComment(ms.Cmt)
 			}
@@ -351,7 +366,7 @@ func check(t *testing.T, c Case) (v *stats.Verdict) {
 		}
 		fail := func(format string, a ...any) {
 			if v.Fail == "" {
-				v.Failf("", format, a...)
+				v.Failf("", "%s", yRuns.ReplaceAllStringFunc(fmt.Sprintf(format, a...), func(r string) string { return fmt.Sprintf("<%d*y>", len(r)) }))
 			}
 		}
 		if f := pub(); f != "" {
